@@ -9,7 +9,7 @@ def units(tier):
     return C15.scenario_units(tier)
 
 
-replay = replay_window
+replay = replay_c15
 INFO = {
     "trusted_base": [TB["T1"], TB["T2"], TB["T3"]],
     "assumptions": ["read footprints of a row are taken from the symbolic execution of its real read() on a full-length answer of the block (all paths)",
